@@ -96,3 +96,44 @@
         #[verifier::external_body]
         fn bitxor(self, rhs: &'b BigInt) -> (r: BigInt) { unimplemented!() }
     }
+
+    // ---- by-value arithmetic used by the literal parser
+    impl MulSpecImpl<usize> for BigInt {
+        open spec fn obeys_mul_spec() -> bool { true }
+        open spec fn mul_req(self, rhs: usize) -> bool { true }
+        open spec fn mul_spec(self, rhs: usize) -> BigInt { mk(self@ * rhs) }
+    }
+    impl core::ops::Mul<usize> for BigInt {
+        type Output = BigInt;
+        #[verifier::external_body]
+        fn mul(self, rhs: usize) -> (r: BigInt) { unimplemented!() }
+    }
+    impl AddSpecImpl<u32> for BigInt {
+        open spec fn obeys_add_spec() -> bool { true }
+        open spec fn add_req(self, rhs: u32) -> bool { true }
+        open spec fn add_spec(self, rhs: u32) -> BigInt { mk(self@ + rhs) }
+    }
+    impl core::ops::Add<u32> for BigInt {
+        type Output = BigInt;
+        #[verifier::external_body]
+        fn add(self, rhs: u32) -> (r: BigInt) { unimplemented!() }
+    }
+
+    impl<'a> ShrSpecImpl<u64> for &'a BigInt {
+        open spec fn obeys_shr_spec() -> bool { true }
+        open spec fn shr_req(self, rhs: u64) -> bool { true }
+        open spec fn shr_spec(self, rhs: u64) -> BigInt { mk(self@ / (vstd::arithmetic::power2::pow2(rhs as nat) as int)) }
+    }
+    impl<'a> core::ops::Shr<u64> for &'a BigInt {
+        type Output = BigInt;
+        #[verifier::external_body]
+        fn shr(self, rhs: u64) -> (r: BigInt) { unimplemented!() }
+    }
+    impl BigInt {
+        /// number of trailing zero bits, None for 0 (as documented)
+        #[verifier::external_body]
+        pub fn trailing_zeros(&self) -> (r: Option<u64>)
+            ensures self@ == 0 <==> r is None,
+                    r is Some ==> self@ % (vstd::arithmetic::power2::pow2(r->0 as nat) as int) == 0 && !crate::ispec::bit_of(self@, r->0 as nat) == false
+        { unimplemented!() }
+    }
